@@ -87,6 +87,7 @@ Definition descriptor_wf (f : fn_def) : bool :=
 Lemma hot_reloaded_flag_is_forwarded :
   forwards Arc_HOT_RELOADED "T" = true /\ forwards Blanket_HOT_RELOADED "Self" = true /\
   forwards Storable_HOT_RELOADED "T" = true /\ forwards OnceInit_HOT_RELOADED "U" = true /\
+  forwards OnceInitOpt_HOT_RELOADED "U" = true /\
   descriptor_wf Inner_of_asset = true /\ descriptor_wf Inner_of_storable = true.
 Proof. vm_compute. repeat split. Qed.
 
